@@ -458,7 +458,7 @@ class FnOverlay:
         self.fo.ov.rewrites.append({"rule": rule, "fn": self.path, "old": _norm_ws(old), "new": _norm_ws(new)})
         return self
 
-    def cut(self, text, name, params, call, ensures=(), requires=(), ret=None, tail=None):
+    def cut(self, text, name, params, call, ensures=(), requires=(), ret=None, tail=None, body=None):
         """CUT: one expression/statement outside Verus' subset is replaced by a call to a function whose BODY IS THE
         ORIGINAL TEXT VERBATIM and which is external_body with an ASSUMED contract.  Anchored on the exact text:
         any change inside it loses the anchor (UNDECIDED), it is never silently trusted."""
@@ -473,7 +473,8 @@ class FnOverlay:
             spec += "\n    requires " + ", ".join(requires) + ","
         if ensures:
             spec += "\n    ensures " + ", ".join(ensures) + ","
-        body = "#[verifier::external_body]\n" + sig + spec + "\n{\n    " + orig + ("\n    " + tail if tail else "") + "\n}\n"
+        cut_body = body if body is not None else orig + ("\n    " + tail if tail else "")
+        body = "#[verifier::external_body]\n" + sig + spec + "\n{\n    " + cut_body + "\n}\n"
         if encl:
             im = max(encl, key=lambda x: x["start"])
             header = fo.src(im["start"], im["brace_start"] + 1)
